@@ -18,11 +18,21 @@ RunFailed(e) ==
   \cup (IF e.sent = e.planned_sent THEN {} ELSE {"C08_AllTokenBearersAddressed"})
   \cup (IF e.kind # "mut" /\ res \in Concurrency THEN {"C17_NeverForOtherKinds"} ELSE {})
 \* C17: 301/302 from a majority of the contacted nodes surface as CasFailed / NotMostRecent
+\* (literally: whatever else arrived.  Every reply of a run reaches the writer before its requests expire.)
 MajorityFailed(e) ==
-  LET n301 == Count(e.arr_pending, 301) n302 == Count(e.arr_pending, 302) half == (e.sent \div 2) + 1 IN
-  IF e.kind = "mut" /\ Count(e.arr_pending, 0) = 0 /\ n301 >= half /\ e.result # "CasFailed" THEN {"C17_MajoritySurface"}
-  ELSE IF e.kind = "mut" /\ Count(e.arr_pending, 0) = 0 /\ n302 >= half /\ e.result # "NotMostRecent" THEN {"C17_MajoritySurface"}
+  LET n301 == Count(e.arr_all, 301) n302 == Count(e.arr_all, 302) half == (e.sent \div 2) + 1 IN
+  IF e.kind = "mut" /\ n301 >= half /\ e.result # "CasFailed" THEN {"C17_MajoritySurface"}
+  ELSE IF e.kind = "mut" /\ n302 >= half /\ e.result # "NotMostRecent" THEN {"C17_MajoritySurface"}
   ELSE {}
+\* where in the arrival order the majority became complete (0: never)
+MajIdx(arr, code, half) == IF Count(arr, code) < half THEN 0
+                           ELSE CHOOSE k \in 1..Len(arr) : Count(SubSeq(arr, 1, k), code) >= half /\ Count(SubSeq(arr, 1, k - 1), code) < half
+\* the one case in which today's code lets an acknowledged write win over a 3xx majority: the reply that completes the majority
+\* is also the last reply the query was waiting for (PutQuery::check looks at "done" first) - KF-C17-1
+MajorityByLastReply(e) ==
+  LET half == (e.sent \div 2) + 1
+      k == IF Count(e.arr_all, 301) >= half THEN MajIdx(e.arr_all, 301, half) ELSE MajIdx(e.arr_all, 302, half)
+  IN k > 0 /\ k = Len(e.arr_all) /\ Len(e.arr_all) = e.sent
 ConflictFailed(e) ==
   LET rule == LocalRule([sig |-> "A", seq |-> 1], e.second)
       exp2 == IF e.phase # "after_done" /\ rule # "go" THEN rule ELSE "ok"
@@ -52,6 +62,8 @@ Next == /\ l <= Len(Rec)
                conforms == e.e # "run" \/ e.result = Result(e.kind, e.sent, e.arr_all)
            IN IF f # {} THEN PrintT(<<"VIOL", ToJson([line |-> l, b |-> e.b, failed |-> f,
                       early_exit_after_ack |-> (e.e = "run" /\ EarlyExitAfterAck(e.kind, e.sent, e.arr_all, e.result)),
+                      ack_present |-> (e.e = "run" /\ Count(e.arr_all, 0) > 0),
+                      majority_completed_by_last_reply |-> (e.e = "run" /\ e.kind = "mut" /\ MajorityByLastReply(e)),
                       conforms_to_model |-> conforms, which |-> Which(e), phase |-> IF e.e = "run" THEN "store" ELSE e.phase])>>)
               ELSE IF ~conforms THEN PrintT(<<"DRIFT", ToJson([line |-> l, b |-> e.b, observed |-> e.result, model |-> Result(e.kind, e.sent, e.arr_all)])>>)
               ELSE TRUE
